@@ -100,6 +100,29 @@ pub fn memory_risk(rr: &RefRun, src: &str) -> bool {
     }
 }
 
+/// The same question for a sequence that is stepped statement by statement the way the REPL does (execution goes
+/// on after a statement that failed): the reference steps it the same way; a statement that exhausts the budget or
+/// leaves the domain in a program that multiplies makes the whole sequence a possible memory request.
+pub fn stepwise_memory_risk(prog: &[S], budget: u64) -> bool {
+    let mut it = Interp::new(budget);
+    it.max_len = 4096;
+    let mut env: Env = None;
+    let multiplies = render(prog).contains(" * ");
+    for s in prog {
+        match it.run_more(std::slice::from_ref(s), &mut env) {
+            Ok(_) | Err(Stop::Error(..)) => {}
+            Err(Stop::Budget) => return true,
+            Err(Stop::Unspecified(u)) => {
+                if multiplies || u.starts_with("operator * on") {
+                    return true;
+                }
+            }
+            Err(_) => {}
+        }
+    }
+    false
+}
+
 pub fn compare(section: &str, prog: &[S], rr: &RefRun) -> Verdict {
     let src = render(prog);
     if rr.unspecified.as_deref() == Some("reference step budget exhausted") {
